@@ -207,7 +207,9 @@ def run_property(prop, tier):
                     found.append(os.path.join(r["rdir"], fn))
         if found:
             violations.extend(found)
-        elif r["rc"] in (3, 124) or "panic: test timed out" in r["out"] or "WATCHDOG" in r["out"]:
+        elif r["rc"] in (3, 124) or r["rc"] < 0 or "panic: test timed out" in r["out"] or "WATCHDOG" in r["out"] \
+                or "cannot allocate memory" in r["out"] or "out of memory" in r["out"]:
+            # time budget, watchdog, killed by a signal, out of memory: never a verdict
             inconclusive.append(r)
         elif "VERIF-VIOLATION-FILE " in r["out"]:
             for line in r["out"].splitlines():
@@ -223,6 +225,29 @@ def run_property(prop, tier):
                 f.write(r["out"][-200000:])
             violations.append(path)
 
+    # replay tier: saved inputs of earlier findings must pass on a tree where they are fixed
+    regress_dir = os.path.join(ROOT, "regress")
+    regress_run = 0
+    if os.path.isdir(regress_dir):
+        for fn in sorted(os.listdir(regress_dir)):
+            if not (fn.startswith(prop + "-") and fn.endswith(".json")):
+                continue
+            path = os.path.join(regress_dir, fn)
+            try:
+                rf = json.load(open(path))
+            except Exception:
+                continue
+            race = any(j.get("race") and rf.get("check", "") in j.get("run", "") for j in spec["jobs"])
+            if race not in bins:
+                continue
+            env = goenv()
+            env.update({"VERIF_REPLAY": path, "VERIF_KNOWN": KNOWN})
+            p = subprocess.run([bins[race], "-test.run", "^Test%s$" % rf["check"], "-test.timeout", "120s"],
+                               env=env, cwd=BUILD, stdout=subprocess.PIPE, stderr=subprocess.STDOUT, text=True)
+            regress_run += 1
+            if "REPLAY-VIOLATION" in p.stdout:
+                print("[regress %s] violation reproduced" % fn)
+                violations.append(path)
     wall = time.time() - t0
     known = load_known()
     known_hits = {}
@@ -262,6 +287,7 @@ def run_property(prop, tier):
             "excluded_known": known_hits, "processes": len(results),
             "cases_per_sec": round(evaluations / wall, 1) if wall > 0 else 0,
             "native_fuzz_execs": fuzz_execs,
+            "regression_replays_run": regress_run,
         },
         "assumptions": spec.get("assumptions", []),
         "wall_s": round(wall, 2), "violations": len(violations),
@@ -420,6 +446,12 @@ def selftest(prop, only=None):
                     sig = json.load(open(rp)).get("sig", "")
                 except Exception:
                     sig = "crash-log"
+            if os.environ.get("SELFTEST_SAVE_REGRESS") and viol and "revert" in os.path.basename(patch):
+                rp = viol[0].split("replay=", 1)[1]
+                if rp.endswith(".json") and os.path.exists(rp):
+                    os.makedirs(os.path.join(ROOT, "regress"), exist_ok=True)
+                    shutil.copy(rp, os.path.join(ROOT, "regress", "%s-%s.json" % (
+                        prop, os.path.basename(patch).replace(".patch", "").replace(prop + "-", ""))))
             verdict = {1: "CAUGHT", 0: "MISSED", 2: "INCONCLUSIVE"}.get(p.returncode, "rc=%d" % p.returncode)
             results.append((patch, verdict, "%.0fs %s" % (time.time() - t0, sig)))
             if p.returncode not in (0, 1):
